@@ -452,13 +452,23 @@ fn binsets(d: u8) -> Vec<(&'static str, Vec<(usize, Vec<Chunk>)>)> {
         ("extreme-offsets", vec![(leaf0, vec![c(u64::MAX - 1, u64::MAX)])]),
         ("empty-and-nonempty", vec![(leaf1, vec![]), (leaf0, vec![c(0x1_0000, 0x2_0000)])]),
     ];
-    if p != leaf0 {
+    // (needs depth >= 2: at depth 1 the parent of a leaf is the root itself)
+    if p != leaf0 && p != 0 {
         v.push((
             "chain",
             vec![(0, vec![c(1, 2)]), (leaf0, vec![c(0x1_0000, 0x2_0000)]), (p, vec![c(0x2_0000, 0x3_0000)])],
         ));
         v.push(("leaf-absent-parent-present", vec![(p, vec![c(0x1_0000, 0x5_0000)]), (leaf1, vec![c(0x2_0000, 0x3_0000)])]));
+        // non-ascending, non-descending insertion order
+        v.push((
+            "mixed-order",
+            vec![(leaf1, vec![c(0x3_0000, 0x4_0000)]), (0, vec![c(0x1_0000, 0x2_0000)]), (leaf0, vec![c(0x2_0000, 0x3_0000)])],
+        ));
     }
+    v.push((
+        "three-leaves-rotated",
+        vec![(leaf1, vec![c(0x2_0000, 0x3_0000)]), (leaf1 + 1, vec![c(0x3_0000, 0x4_0000)]), (leaf0, vec![c(0x1_0000, 0x2_0000)])],
+    ));
     v
 }
 
@@ -471,10 +481,15 @@ const LINEAR: [(&str, &[u64]); 6] = [
     ("max", &[u64::MAX]),
 ];
 
-const BINNED: [&str; 6] = ["first-chunk-start", "zeros", "constant", "descending", "max", "zero-below-nonzero-ancestors"];
+const BINNED: [&str; 7] = ["first-chunk-start", "zeros", "constant", "descending", "max", "zero-below-nonzero-ancestors", "last-chunk-end"];
+
+/// How the offset map is laid out relative to the bin map (both are IndexMaps keyed by bin id; equality
+/// ignores insertion order, a file has one loffset per bin).
+const ORDER: [&str; 5] = ["lockstep", "reversed", "rotated", "top-bins-without-offset", "extra-offset-first"];
 
 fn binned_value(kind: usize, i: usize, id: usize, d: u8, chunks: &[Chunk]) -> u64 {
     match kind {
+        6 => chunks.last().map(|c| u64::from(c.end())).unwrap_or(0),
         5 => {
             if id as u64 >= spec::level_offset(d as u32) {
                 0
@@ -502,7 +517,14 @@ fn metadata_menu() -> Vec<Option<Metadata>> {
 
 const UNPLACED: [Option<u64>; 4] = [None, Some(0), Some(7), Some(u64::MAX)];
 
+/// Number of references of the "> 64 KiB names block" scheme.
+const MANY: usize = 4000;
+
 fn names(scheme: usize, n: usize) -> Vec<BString> {
+    if scheme == 4 {
+        // 4000 names of 18 bytes + NUL = 76 000 bytes: more than one BGZF block / 64 KiB buffer
+        return (0..MANY).map(|i| BString::from(format!("contig_{i:05}_abcdef"))).collect();
+    }
     (0..n)
         .map(|i| match scheme {
             0 => BString::from(format!("sq{i}")),
@@ -577,13 +599,58 @@ pub fn body_handbuilt(ch: &Chooser, fmts: &[HFmt]) -> Outcome {
             }
             HFmt::Csi(..) => {
                 let bi = ch.dev("loffsets", BINNED.len());
-                let index: BinnedIndex = sets[bs]
+                let od = ch.dev("loffset-order", ORDER.len());
+                let mut entries: Vec<(usize, u64)> = sets[bs]
                     .1
                     .iter()
                     .enumerate()
-                    .map(|(i, (id, chunks))| (*id, vp(binned_value(bi, i, *id, d, chunks))))
+                    .map(|(i, (id, chunks))| (*id, binned_value(bi, i, *id, d, chunks)))
                     .collect();
-                desc_refs.push(format!("bins={} loffsets={} metadata={:?}", sets[bs].0, BINNED[bi], metas[mt]));
+                let keys: Vec<usize> = entries.iter().map(|e| e.0).collect();
+                let has_ancestor_in = |id: usize, among: &[usize]| {
+                    among.iter().any(|&a| a != id && spec::is_ancestor_or_self(a as u64, id as u64))
+                };
+                match od {
+                    1 => entries.reverse(),
+                    2 => {
+                        if !entries.is_empty() {
+                            entries.rotate_left(1);
+                        }
+                    }
+                    3 => {
+                        // offsets for a strict subset: the bins that have no ancestor among the bins lose
+                        // their entry (all of them; if every bin is such a bin, only the first). Such a bin
+                        // resolves to offset 0 before (nothing above it) and is written with 0, so the
+                        // answers of a correct writer do not change.
+                        let tops: Vec<usize> = keys.iter().copied().filter(|&k| !has_ancestor_in(k, &keys)).collect();
+                        let drop: Vec<usize> = if tops.len() == keys.len() { tops.into_iter().take(1).collect() } else { tops };
+                        entries.retain(|e| !drop.contains(&e.0));
+                    }
+                    4 => {
+                        // an offset for a bin id that has no bin, inserted first. Its value is what the
+                        // walk towards the root would find without it, so dropping it (a file cannot
+                        // carry it) does not change any answer of a correct writer.
+                        let extra = spec::n_bins(d as u32) as usize - 1;
+                        if !keys.contains(&extra) {
+                            let mut v = 0;
+                            let mut cur = spec::parent(extra as u64);
+                            while let Some(a) = cur {
+                                if let Some(e) = entries.iter().find(|e| e.0 == a as usize) {
+                                    v = e.1;
+                                    break;
+                                }
+                                cur = spec::parent(a);
+                            }
+                            entries.insert(0, (extra, v));
+                        }
+                    }
+                    _ => {}
+                }
+                let index: BinnedIndex = entries.iter().map(|&(id, v)| (id, vp(v))).collect();
+                desc_refs.push(format!(
+                    "bins={} {:?} loffsets={} offset-map={} {:x?} metadata={:?}",
+                    sets[bs].0, keys, BINNED[bi], ORDER[od], entries, metas[mt]
+                ));
                 bin_refs.push(ReferenceSequence::new(bins, index, metas[mt].clone()));
             }
         }
@@ -593,7 +660,11 @@ pub fn body_handbuilt(ch: &Chooser, fmts: &[HFmt]) -> Outcome {
         HFmt::Bai => None,
         HFmt::Tabix => {
             let hk = ch.dev("header", 7);
-            let ns = ch.dev("names", 4);
+            let ns = ch.dev("names", 5);
+            if ns == 4 {
+                // one (empty) reference sequence per name, as tabix prescribes
+                lin_refs.resize_with(MANY, || ReferenceSequence::new(IndexMap::new(), LinearIndex::new(), None));
+            }
             Some(header_menu(hk, names(ns, n_refs)))
         }
         HFmt::Csi(..) => {
@@ -602,15 +673,23 @@ pub fn body_handbuilt(ch: &Chooser, fmts: &[HFmt]) -> Outcome {
             if hk == 0 {
                 None
             } else {
-                let ns = ch.dev("names", 4);
+                let ns = ch.dev("names", 5);
+                if ns == 4 {
+                    bin_refs.resize_with(MANY, || ReferenceSequence::new(IndexMap::new(), BinnedIndex::new(), None));
+                }
                 Some(header_menu(hk - 1, names(ns, n_refs)))
             }
         }
     };
     let describe = || {
         format!(
-            "{fmt:?} hand-built: references [{}], n_no_coor {unplaced:?}, header {header:?}; Index::builder()…build(); writer -> reader",
-            desc_refs.join(" | ")
+            "{fmt:?} hand-built: references [{}]{}, n_no_coor {unplaced:?}, header {}; Index::builder()…build(); writer -> reader",
+            desc_refs.join(" | "),
+            if header.as_ref().is_some_and(|h| h.reference_sequence_names().len() == MANY) { format!(" + empty references up to {MANY}") } else { String::new() },
+            match &header {
+                Some(h) if h.reference_sequence_names().len() == MANY => format!("{MANY} names contig_00000_abcdef.. ({:?}, columns {}/{}/{:?})", h.format(), h.reference_sequence_name_index(), h.start_position_index(), h.end_position_index()),
+                other => format!("{other:?}"),
+            }
         )
     };
     ch.desc(describe);
